@@ -181,3 +181,75 @@ Print Assumptions c08_bound_direct_weaker. Print Assumptions c08_nested_binder_e
 Print Assumptions c08_early_renaming_variant_not_hygienic.
 Print Assumptions c08_renaming_decided_per_occurrence. Print Assumptions c08_disjunction_local_renamed.
 Print Assumptions c08_disjunction_dedup_variant_not_hygienic.
+
+From AV Require Import Macros.MacroArgs.
+(* ---- NESTED argument expressions (Macros/MacroArgs.v).  An `expr` actual is an arbitrary Rust expression; MacroModel.term
+   is its normal form "function symbol applied to the variable leaves" (ids_term = ALL leaves), so c08_hygiene covers actuals
+   of any nesting, but the model could not say how many delimiter groups `( .. )`, `f( .. )`, `[ .. ]`, `{ .. }` stand around a
+   leaf.  MacroArgs.aexp adds that structure ([aexp_of_term tbl]: the symbols >= XBASE of a term denote the shapes of a table,
+   the symbols of the fixed vocabulary parenthesise every operand; [occs]: every identifier occurrence with its depth).
+   The renaming of the variables originating in macro m visits EVERY occurrence of an argument expression and decides from the
+   origin (span) of that occurrence alone: the k-th occurrence, d groups deep, keeps its spelling if it was not written in the
+   body of m (a call-site identifier; a local of an enclosing macro passed on), whatever d ... *)
+Theorem c08_argument_renaming_commutes_with_nesting : forall tbl R t,
+  aexp_of_term tbl (map_term R t) = map_aexp R (aexp_of_term tbl t).
+Proof. exact aexp_of_term_map. Qed.
+Theorem c08_argument_occurrence_of_other_origin_untouched : forall m mp e k d i,
+  nth_error (occs 0 e) k = Some (d, i) -> org_is m i = false ->
+  nth_error (occs 0 (map_aexp (ren m mp) e)) k = Some (d, i).
+Proof. exact arg_occurrence_other_origin_untouched. Qed.
+(* ... and is renamed like the rest of m's body if it was (a local of m inside the argument of a nested invocation) *)
+Theorem c08_argument_occurrence_of_macro_origin_renamed : forall m mp e k d i s,
+  nth_error (occs 0 e) k = Some (d, i) -> org_is m i = true -> sassoc mp (iname i) = Some s ->
+  nth_error (occs 0 (map_aexp (ren m mp) e)) k = Some (d, set_name s i).
+Proof. exact arg_occurrence_macro_origin_renamed. Qed.
+Theorem c08_call_site_argument_untouched : forall m mp e,
+  (forall i, In i (ids_aexp e) -> iorg i = OCall) -> map_aexp (ren m mp) e = e.
+Proof. exact arg_call_site_untouched. Qed.
+(* A renaming pass with the fast path "look at the origin of an identifier only if its spelling occurs among the identifiers
+   [argn] of the invocation's arguments" ([ren_fast], [expand_rule_scan]) is the faithful visitor on every identifier that
+   came in through the arguments PROVIDED the arguments are scanned by a full traversal ([scan_full]: every leaf of every
+   actual, at any depth) ... *)
+Theorem c08_fast_path_sound_with_full_argument_scan : forall tbl acts m mp i,
+  forallb (term_covered tbl) acts = true -> In i (flat_map ids_term acts) -> ren_fast (scan_full tbl acts) m mp i = ren m mp i.
+Proof. exact ren_fast_full_scan_on_arguments. Qed.
+(* ... on  macro m0($p0: expr) { u0(t), e0(t, $p0) }   d1(t) <-- u1(t), m0!(A);   with A = `(t + 1).min(7)` (t one group deep),
+   `((t - 1).max(0) + 1).min(7)` (two groups), `t.min(6) + 1` (top level), `t.max(t)` (both) the faithful expansion and the
+   full-scan fast path give  u1(t), u0(__t_), e0(__t_, A)  with the call-site t of A untouched ... *)
+Example c08_nested_argument_example : forall a, In a [a_grp1; a_grp2; a_top; a_both] ->
+  expand_rule M_arg (r_arg a) = OK (expected_arg a) /\ expand_rule_scan (scan_full tbl_arg) M_arg (r_arg a) = OK (expected_arg a).
+Proof. exact nested_argument_example. Qed.
+(* ... whereas with the scan of the TOP-LEVEL tokens of the arguments ([scan_flat]: it never enters a group) the fast path is
+   NOT hygienic as soon as the colliding identifier stands only inside a group — one group deep, two groups deep — and one
+   level down, where an enclosing macro passes its own local t inside a group to a macro with a local t:
+       macro m1($p0: ident) { e0($p0, t), m0!((t + 1).min(7)) }     d1(a) <-- u1(a), m1!(a);
+   (the tables and rules satisfy the hypotheses of c08_hygiene).  With the colliding identifier at top level (also) the flat
+   scan changes nothing.  (Statements about a variant of the model, not about the code: the code has no fast path.  The tie
+   runs the family gen/c08_args.py — 17 macro shapes x 7 placements of the colliding identifier x 4 rule shapes, every kind of
+   delimiter, depth 1-3 — on every check.) *)
+Theorem c08_flat_argument_scan_variant_not_hygienic :
+  wf_macros (fun m => m) [] M_arg = true /\ wf_rule [] (r_arg a_grp1) = true /\ wf_rule [] (r_arg a_grp2) = true
+  /\ not_hygienic_scan (scan_flat tbl_arg) M_arg (r_arg a_grp1) /\ not_hygienic_scan (scan_flat tbl_arg) M_arg (r_arg a_grp2).
+Proof. exact refuted_flat_argument_scan. Qed.
+Theorem c08_flat_argument_scan_variant_not_hygienic_nested_invocation :
+  wf_macros (fun m => m) [] M_arg2 = true /\ wf_rule [] r_arg2 = true /\ not_hygienic_scan (scan_flat []) M_arg2 r_arg2.
+Proof. exact refuted_flat_argument_scan_nested_invocation. Qed.
+Example c08_flat_argument_scan_top_level_control :
+  expand_rule_scan (scan_flat tbl_arg) M_arg (r_arg a_top) = OK (expected_arg a_top)
+  /\ expand_rule_scan (scan_flat tbl_arg) M_arg (r_arg a_both) = OK (expected_arg a_both).
+Proof. exact flat_scan_top_level_control. Qed.
+Example c08_nested_invocation_argument_example :
+  wf_macros (fun m => m) [] M_arg2 = true /\ wf_rule [] r_arg2 = true
+  /\ expand_rule M_arg2 r_arg2 =
+       OK (mkRule [HClause 4 [TV (cs "a")]]
+                  [IClause 2 [TV (cs "a")] []; IClause 0 [TV (cs "a"); TV (VId (mkId "__t_1" (OMac 1) 0))] [];
+                   IClause 1 [TV (VId (mkId "__t_" (OMac 0) 0))] [];
+                   IClause 0 [TV (VId (mkId "__t_" (OMac 0) 0)); TF 0 [VId (mkId "__t_1" (OMac 1) 0)]] []])
+  /\ expand_rule_scan (scan_full []) M_arg2 r_arg2 = expand_rule M_arg2 r_arg2.
+Proof. exact nested_invocation_argument_example. Qed.
+
+Print Assumptions c08_argument_renaming_commutes_with_nesting. Print Assumptions c08_argument_occurrence_of_other_origin_untouched.
+Print Assumptions c08_argument_occurrence_of_macro_origin_renamed. Print Assumptions c08_call_site_argument_untouched.
+Print Assumptions c08_fast_path_sound_with_full_argument_scan. Print Assumptions c08_nested_argument_example.
+Print Assumptions c08_flat_argument_scan_variant_not_hygienic. Print Assumptions c08_flat_argument_scan_variant_not_hygienic_nested_invocation.
+Print Assumptions c08_flat_argument_scan_top_level_control. Print Assumptions c08_nested_invocation_argument_example.
